@@ -6,7 +6,7 @@ that enters the kernel wait) evaluated in the smallest exported calling context 
 internal helper inlined (h06.minimal_roots + core.Inliner), never on names of static functions, locals or
 parameters, expression text or the loop form.  See h06.py for the analyses.
 """
-from ..core import AnalysisBroken, strip, last_member, relpath, forward, norm_cond
+from ..core import AnalysisBroken, strip, last_member, relpath, forward, norm_cond, is_null, is_int
 from ..analyses import path_to, describe, callback_kind
 from .. import roles
 from . import c18
@@ -25,7 +25,11 @@ def run(ctx):
     ctx.rule('R-C06e', 'the running-batch pointer (address of a local) is cleared on every exit of the runner', floor=1)
     ctx.rule('R-C06f', 'the zero deadline reaches the kernel wait: the poll gets the caller\'s deadline unless a kernel timer is armed for a '
                        'deadline that is not later (shared with C04 R-C04f)', floor=3)
+    ctx.rule('R-C06g', 'a "kernel timer armed" answer is true: a slot that is asked to arm a kernel timer for the poll deadline answers '
+                       'non-zero only on paths on which the deadline was handed to the kernel (and that call did not fail); on every '
+                       'other path it answers 0, so that the caller waits with the (zero) deadline itself', floor=1)
     ctx.section(lambda c: __import__('ivy.rules.c04', fromlist=['x']).keep_armed(c, 'R-C06f'))
+    ctx.section(armed_answer)
     ctx.section(runner)
     ctx.section(zero_timeout)
     ctx.section(register)
@@ -119,10 +123,83 @@ def _deadline_arg(prog, g, e):
         idx = h.deadline_params(t)
         if len(idx) == 1 and idx[0] < len(args):
             return args[idx[0]]
+    if t is None and callback_kind(e) == ('method', 'poll'):
+        # a call through the poll slot: the deadline is the argument bound to the `timespec *` parameter of the slot's targets
+        # (whatever is passed there: a variable, a conditional expression, NULL = "no deadline of its own")
+        idx = {tuple(h.deadline_params(x)) for x in prog.slot_targets('poll')}
+        if len(idx) == 1 and len(list(idx)[0]) == 1 and list(idx)[0][0] < len(args):
+            return args[list(idx)[0][0]]
     idx = [i for i, a in enumerate(args) if any(x.get('record') == 'timespec' for x in h.walk(a))]
     if len(idx) == 1:
         return args[idx[0]]
     raise AnalysisBroken('%s: deadline argument of %s not identified' % (g.name, describe(e)))
+
+
+def _summary_lookup(prog, g, summ):
+    """call expression -> polarity p such that (result != 0) <=> (tasks are pending) == p, for a summarised callee"""
+    if not summ:
+        return None
+    u = prog.unit_of(getattr(g, 'inlined_from', None) or g)
+
+    def look(x):
+        x = strip(x)
+        if isinstance(x, dict) and x.get('k') == 'call' and x.get('callee'):
+            t = prog.resolve(u, x['callee']) if u else prog.funcs.get(x['callee'])
+            if t is not None:
+                return summ.get(t.q)
+        return None
+    return look
+
+
+def _returns_pending(prog, t, rootq, W, always, touch, T):
+    """polarity p when every return of the exported function t (helpers inlined) yields the truth value of "the pending-task
+    list is not empty" (== p) as it is at that return: the test is made in the return expression itself, or was made
+    earlier and nothing since can have changed the list (no callback, no task-list operation: h.may_touch_tasks).  None otherwise."""
+    memo = prog.__dict__.setdefault('_c06_retpend', {})
+    if t.q in memo:
+        return memo[t.q]
+    memo[t.q] = None
+    stopq = (set(rootq) & (W | always | (touch - T))) - {t.q}
+    try:
+        g = h.inline_root(prog, t, stop=lambda x: x.q in stopq)
+    except AnalysisBroken:
+        return None
+    rets = [e for e in g.events() if e['ev'] == 'ret' and not e.get('chain')]
+    if not rets or any(e.get('value') is None for e in rets):
+        return None
+    cache = {}
+
+    def target(e):
+        if id(e) not in cache:
+            x = h.callee_of(prog, g, e)
+            cache[id(e)] = x.q if x is not None else None
+        return cache[id(e)]
+
+    def touches(e):
+        if e['ev'] != 'call':
+            return False
+        if 'fnexpr' in e:
+            k = callback_kind(e)
+            if k and k[0] == 'method':
+                return any(x.q in touch for x in prog.slot_targets(k[1]))
+            return True
+        return target(e) in touch
+    track = {h.local_name(e['value']) for e in rets} - {None}
+    wf = h.WaitFlow(prog, g, lambda e: False, lambda e: False, touches, track=track)
+    pols = set()
+    for e in rets:
+        for s_ in wf.at.get((e['_b'], e['_i']), ()):
+            p = h._truth_of_pending(e['value'], s_[1])          # read at the return itself
+            if p is None:
+                v = wf.value(e['value'], s_[1], s_[0])
+                if isinstance(v, tuple) and v[0] == 'pb':
+                    p = v[1]
+                elif isinstance(v, tuple) and v[0] == 'c' and s_[0] in ('E', 'N'):
+                    p = (v[1] != 0) == (s_[0] == 'N')
+            pols.add(p)
+    if len(pols) == 1 and None not in pols:
+        memo[t.q] = pols.pop()
+    return memo[t.q]
 
 
 def zero_timeout(ctx):
@@ -150,13 +227,29 @@ def zero_timeout(ctx):
     # one of them "runs the tasks".  One that does so only conditionally (a merged entry point `run(st, what)`) is not
     # trusted as a call: it is inlined, and the round it begins counts where the counter is stepped.
     always = {q for q in T if q in rootq and q not in W and h.always_begins_round(prog, rootq[q])}
+    # deadline keepers: functions (exported or not) that take a deadline, do not wait themselves and from which the slot that
+    # arms a kernel timer for the deadline is reachable.  A deadline handed to one of them is *submitted* to the waiting
+    # machinery like one handed to the wait itself (whether the machinery honours it is R-C06f); they stay calls.
+    armers = roles.functions_with(prog, lambda e: callback_kind(e) == ('method', 'set_poll_timeout'))
+    K = h.closure_q(prog, armers) if armers else set()
+    keepers = {f.q for f in prog.all_funcs() if f.q in K and f.q not in W and len(h.deadline_params(f)) == 1}
     nsites = 0
     for M in mains:
         # other exported functions that wait, run tasks or may run user code stay calls; the rest is inlined
         stopq = (set(rootq) & (W | always | (touch - T))) - {M.q}
         # ... except a waiting function that chooses the deadline itself (no deadline parameter): its choice is what is checked
         stopq -= {q for q in stopq if q in W and not h.deadline_params(rootq[q])}
+        stopq |= keepers - {M.q}
         g = h.inline_root(prog, M, stop=lambda t: t.q in stopq)
+        # exported callees that stay calls and whose result is the truth value of "tasks are pending", read at their return
+        # with nothing after the test that could change it (`pending = iv_run_tasks(st)`): {qualified name: polarity}
+        summ = {}
+        for e in g.events():
+            if e['ev'] == 'call' and 'callee' in e:
+                t = h.callee_of(prog, g, e)
+                if t is not None and t.q in stopq and t.q not in summ and t.q in rootq and t.q not in keepers:
+                    summ[t.q] = _returns_pending(prog, t, rootq, W, always, touch, T)
+        summ = {q: p for q, p in summ.items() if p is not None}
         cache = {}
 
         def target(e):
@@ -186,17 +279,27 @@ def zero_timeout(ctx):
                 return True
             return target(e) in touch
 
-        wf = h.WaitFlow(prog, g, is_taskrun, is_wait, touches)
+        def is_keeper(e):
+            return e['ev'] == 'call' and 'callee' in e and target(e) in keepers
+
+        wf = h.WaitFlow(prog, g, is_taskrun, is_wait, touches, summaries=_summary_lookup(prog, g, summ))
+        # on every path to a program point a deadline was submitted to a keeper since the previous wait (or entry)
+        _, submitted = forward(g, False, lambda e, s_: True if is_keeper(e) else (False if is_wait(e) else s_), lambda a, b: a and b)
         sites = {}
         for e in g.events():
-            if is_wait(e) and wf.at.get((e['_b'], e['_i'])):
+            if (is_wait(e) or is_keeper(e)) and wf.at.get((e['_b'], e['_i'])):
                 sites.setdefault(e['loc'], []).append(e)
+        nsites += len([1 for evs in sites.values() if any(is_wait(e) for e in evs)])
         for loc, evs in sorted(sites.items()):
-            nsites += 1
             res = {'deadline-is-local': True, 'tv_sec=0': True, 'tv_nsec=0': True}
             tested, ran = False, True
             for e in evs:
                 arg = _deadline_arg(prog, g, e)
+                if is_keeper(e):
+                    ran = True          # R-C06c is about the wait itself
+                # a wait without a deadline of its own (NULL): the deadline in force is the one submitted to the keeper of the
+                # kernel timer since the previous wait (checked at that call, which is a site of its own)
+                sub = bool(submitted.get((e['_b'], e['_i'])))
                 for st_ in wf.at[(e['_b'], e['_i'])]:
                     (pend, env, zeros, rn) = st_
                     ran = ran and rn
@@ -206,6 +309,10 @@ def zero_timeout(ctx):
                     for (dl, pn) in wf.arm_values(arg, st_):      # `c ? a : b` / `table[test]` as the argument: every arm the state allows
                         tested = tested or pn == 'N'
                         if pn == 'E':
+                            continue
+                        if is_wait(e) and (dl == ('c', 0) or is_null(strip(arg))):
+                            for what in res:
+                                res[what] = res[what] and sub
                             continue
                         L = dl[1] if isinstance(dl, tuple) and dl[0] == 'addr' else None
                         Z = isinstance(dl, tuple) and dl[0] == 'zaddr'      # a never-written zero-initialised const object
@@ -219,10 +326,48 @@ def zero_timeout(ctx):
             if not tested:
                 ctx.ob('R-C06b', '%s:pending-tasks:tested' % M.name, False, loc=loc,
                        detail='the poll deadline does not depend on a test of the pending-task list: with tasks pending the loop may sleep', fn=M.q)
+            if not any(is_wait(e) for e in evs):
+                continue
             ctx.ob('R-C06c', '%s:tasks-before-poll' % M.name, ran, loc=loc,
                    detail='on every path to the kernel wait a round of tasks was begun (the runner called / the round counter advanced) since the previous wait (or entry)', fn=M.q)
     if not nsites:
         raise AnalysisBroken('%s: call that enters the kernel wait not found' % ', '.join(m.name for m in mains))
+
+
+# --------------------------------------------------------------------------
+# R-C06g: the answer of the slot that arms a kernel timer for the deadline
+# --------------------------------------------------------------------------
+
+def armed_answer(ctx):
+    """The caller of the `set_poll_timeout` slot waits *without* a deadline when the slot answers non-zero (R-C06f).  With a task
+    pending the deadline is zero; it reaches the kernel only through the timer the slot arms.  So for every function installed in
+    that slot (helpers inlined): on every path to a return whose value can be non-zero, the deadline parameter (or a local
+    it was copied into) was passed to a function outside the program -- the kernel -- and no branch since found that call failed."""
+    prog = ctx.prog
+    targets = {}
+    for t in prog.slot_targets('set_poll_timeout'):
+        targets[t.q] = t
+    if not targets:
+        raise AnalysisBroken('no function is installed in the set_poll_timeout slot of a poll method')
+    for q, t in sorted(targets.items()):
+        dl = h.deadline_params(t)
+        if len(dl) != 1:
+            raise AnalysisBroken('%s: deadline parameter (the one struct timespec *) not identified' % t.name)
+        g = h.inlined(prog, t)
+        af = h.ArmFlow(prog, g, t.params[dl[0]]['name'])
+        rets = [e for e in g.events() if e['ev'] == 'ret' and not e.get('chain')]
+        if not rets or any(e.get('value') is None for e in rets):
+            raise AnalysisBroken('%s: does not return an answer' % t.name)
+        bad = []
+        for e in rets:
+            for s_ in af.at.get((e['_b'], e['_i']), ()):
+                if af.const(e['value'], s_[2]) != 0 and not s_[0]:
+                    bad.append(e)
+                    break
+        ctx.ob('R-C06g', '%s:armed-answer-only-after-arming' % t.name, not bad, loc=bad[0]['loc'] if bad else t.loc,
+               detail='every path to a return that can answer non-zero ("armed: wait without deadline") handed the deadline to the kernel '
+                      'and did not see that call fail%s' % ((': not so at %s' % describe(bad[0])) if bad else ''),
+               path=path_to(g, bad[0]) if bad else None, fn=t.q)
 
 
 # --------------------------------------------------------------------------
